@@ -1,13 +1,176 @@
-"""C10 -- placeholder until the check is built"""
+"""C10 -- loaded series reproduce the sources on one uniform grid"""
+
+import datetime
+import io
+import os
+import sqlite3
+
+from .. import core, data, oracle_load
+
 PROPERTY = 'C10'
 LEVEL = 'exploration'
-SHARDS = {'quick': 1, 'thorough': 1}
-RULE = 'not built yet'
+SHARDS = {'quick': 4, 'thorough': 16}
+RULE = (
+    'G-load triples of CSV texts: 3-400 rainfall rows on steps 600/900/1200/1800/3600 s, water level on the same or '
+    'a different step (300-3600 s), aligned or offset by a fraction of a step, starting / ending before, with or '
+    'after the rainfall record, 0-4 gaps anywhere (also before the first and after the last grid instant, gaps '
+    'shorter than a grid step, isolated samples), ET record wider than the span, rows shuffled, BOM (CLI); zones UTC '
+    'and fixed offsets.  Loaded by the real load_data (function) and `spowtd load` (CLI).  Walker recomputes from the '
+    'generated rows, with own timestamp arithmetic and bisect: grid instants, rainfall / ET rows, interpolated water '
+    'levels (1e-12 relative), absence of values and labels strictly inside source gaps, distinct labels per stretch.  '
+    'Non-trivial: >= 1 grid instant inside a gap and >= 1 interpolated (non-coincident) instant; distinct by '
+    '(steps, offsets, gap positions).'
+)
+ASSUMPTIONS = [
+    'a source step larger than the smallest source step is a gap (the definition the property and the code share)',
+    'the closing grid instant carries no water level; its label is not constrained',
+]
+SIZES = {'quick': dict(n=3000, cli=60), 'thorough': dict(n=120000, cli=1600)}
+REQUIRED = {
+    tier: {
+        'loads-accepted-and-walked': 1000,
+        'instants-interpolated': 2000,
+        'instants-inside-gaps': 500,
+        'instants-coincident': 2000,
+        'cases-misaligned-water-level': 200,
+        'cases-different-water-level-step': 200,
+        'cases-shuffled-rows': 200,
+        'cases-with-gap': 500,
+        'loads-via-cli-with-bom': 10,
+        'cases-fixed-offset-zone': 100,
+    }
+    for tier in ('quick', 'thorough')
+}
+MIN_NONTRIVIAL = {'quick': 300, 'thorough': 5000}
+T0 = datetime.datetime(2021, 3, 1)
+ZONES = {'UTC': 0, 'Etc/GMT-7': 7 * 3600, 'Etc/GMT+3': -3 * 3600, 'Etc/GMT-12': 12 * 3600}
+
+
+def gen(rng):
+    rstep = rng.choice([600, 900, 1200, 1800, 3600])
+    zstep = rng.choice([rstep, rstep, rstep, 300, 600, 1200, 1800, 3600, 900])
+    n = rng.randint(3, 40) if rng.random() < 0.9 else rng.randint(40, 400)
+    r0 = rng.randint(-5, 5) * rstep
+    rain_t = [r0 + i * rstep for i in range(n)]
+    z0 = r0 + rng.choice([0, 0, rstep, -rstep, -3 * rstep, rng.randint(-3, 3) * 300, rng.randint(0, n // 2) * rstep, rng.randint(1, 59) * 60])
+    m = rng.randint(2, max(2, int(n * rstep / zstep) + 3))
+    zt = [z0 + i * zstep for i in range(m)]
+    ngaps = rng.choice([0, 0, 1, 2, 3, 4])
+    gapped = False
+    for _ in range(ngaps):
+        if len(zt) > 3:
+            i = rng.randint(1, len(zt) - 2)
+            k = rng.randint(1, 3)
+            del zt[i:i + k]
+            gapped = True
+    if len(zt) < 2:
+        zt = [z0, z0 + zstep]
+    et_t = [r0 + (i - 2) * rstep for i in range(n + 5)]
+    rain = [(t, round(rng.choice([0, 0, rng.uniform(0, 20)]), 3)) for t in rain_t]
+    et = [(t, round(rng.uniform(0, 0.5), 4)) for t in et_t]
+    z = [(t, round(rng.uniform(-500, 100), 2)) for t in zt]
+    flags = {'misaligned': (z0 - r0) % rstep != 0, 'zstep_differs': zstep != rstep, 'gapped': gapped, 'shuffled': False}
+    for L in (rain, et, z):
+        if rng.random() < 0.3:
+            rng.shuffle(L)
+            flags['shuffled'] = True
+    zone = rng.choice(['UTC', 'UTC', 'Etc/GMT-7', 'Etc/GMT+3', 'Etc/GMT-12'])
+    return {'kind': 'load', 'rstep': rstep, 'zstep': zstep, 'rain': rain, 'et': et, 'z': z, 'tz': zone, 'flags': flags}
+
+
+def text_of(rows, header='Datetime,value'):
+    return header + '\n' + ''.join('{},{!r}\n'.format((T0 + datetime.timedelta(seconds=t)).strftime(data.FMT), v) for t, v in rows)
+
+
+def to_epoch(sec, zone):
+    """epoch of local naive time T0 + sec in a fixed-offset zone (own arithmetic)"""
+    return int((T0 + datetime.timedelta(seconds=sec) - data.EPOCH0).total_seconds()) - ZONES[zone]
+
+
+def check_case(ctx, case, via='function', index=0):
+    import spowtd.load as load_mod
+
+    rec = ctx.rec
+    rec.case()
+    zone = case['tz']
+    p, e, z = text_of(case['rain']), text_of(case['et']), text_of(case['z'])
+    if via == 'function':
+        connection = sqlite3.connect(':memory:')
+        try:
+            load_mod.load_data(connection, io.StringIO(p), io.StringIO(e), io.StringIO(z), zone)
+            exc = None
+        except Exception as err:  # pylint: disable=broad-except
+            exc = err
+    else:
+        paths = []
+        for name, text in (('p', p), ('e', e), ('z', z)):
+            path = os.path.join(ctx.workdir, 'l{}_{}.txt'.format(index, name))
+            with open(path, 'w', encoding='utf-8-sig' if index % 2 == 0 else 'utf-8') as f:
+                f.write(text)
+            paths.append(path)
+        db = os.path.join(ctx.workdir, 'l{}.sqlite3'.format(index))
+        if os.path.exists(db):
+            os.remove(db)
+        status, exc = data.cli(['load', db, '-p', paths[0], '-e', paths[1], '-z', paths[2], '--timezone', zone])
+        if exc is None and status != 0:
+            exc = RuntimeError('exit status {}'.format(status))
+        connection = sqlite3.connect(db)
+    try:
+        if exc is not None:
+            desc = core.describe_exception(exc)
+            if desc['origin'] == 'harness':
+                rec.inconclusive_because('harness exception in load: {}'.format(desc))
+                return
+            # domain: >= 2 rainfall instants inside the water-level span, uniform, ET present
+            zt = sorted(t for t, _ in case['z'])
+            inspan = [t for t, _ in case['rain'] if zt[0] <= t <= zt[-1]]
+            if len(inspan) < 2:
+                rec.hit('refused: fewer than two rainfall instants inside the water-level span')
+                return
+            rec.violation('valid-input-refused:' + desc['type'], {'exception': desc}, case, 'load')
+            return
+        rain = [(to_epoch(t, zone), v) for t, v in case['rain']]
+        et = [(to_epoch(t, zone), v) for t, v in case['et']]
+        zz = [(to_epoch(t, zone), v) for t, v in case['z']]
+        findings, stats = oracle_load.walk(connection, rain, et, zz, case['rstep'], zone)
+        rec.hit('loads-accepted-and-walked')
+        if via == 'cli':
+            rec.hit('loads-via-cli-with-bom' if index % 2 == 0 else 'loads-via-cli')
+        for name, n in stats.items():
+            if name != 'nontrivial':
+                rec.hit(name, n)
+        fl = case['flags']
+        for name, label in (('misaligned', 'cases-misaligned-water-level'), ('zstep_differs', 'cases-different-water-level-step'),
+                            ('shuffled', 'cases-shuffled-rows'), ('gapped', 'cases-with-gap')):
+            if fl.get(name):
+                rec.hit(label)
+        if zone != 'UTC':
+            rec.hit('cases-fixed-offset-zone')
+        for k, w in findings:
+            rec.violation(k, w, case, 'load')
+        if stats.get('nontrivial'):
+            zt = sorted(t for t, _ in case['z'])
+            rec.mark_nontrivial(core.digest((case['rstep'], case['zstep'], zt[0] - min(t for t, _ in case['rain']), [b - a for a, b in zip(zt, zt[1:])][:40])))
+            rec.sample({'rain_step_s': case['rstep'], 'water_level_step_s': case['zstep'], 'zone': zone,
+                        'rain_rows': len(case['rain']), 'water_level_rows': len(case['z']),
+                        'water_level_times_s': sorted(t for t, _ in case['z'])[:12], 'first_rain_time_s': min(t for t, _ in case['rain']),
+                        'gap_instants': stats.get('instants-inside-gaps'), 'interpolated_instants': stats.get('instants-interpolated')})
+    finally:
+        connection.close()
 
 
 def run(ctx):
-    ctx.rec.inconclusive_because('check not built yet')
+    s = SIZES[ctx.tier]
+    rng = ctx.rng('load')
+    n = ctx.share(s['n'])
+    ncli = ctx.share(s['cli'])
+    for i in range(n):
+        check_case(ctx, gen(rng), 'cli' if i < ncli else 'function', i)
 
 
 def replay(ctx, case, module=None):
-    ctx.rec.inconclusive_because('check not built yet')
+    case['rain'] = [tuple(r) for r in case['rain']]
+    case['et'] = [tuple(r) for r in case['et']]
+    case['z'] = [tuple(r) for r in case['z']]
+    check_case(ctx, case, 'function', 0)
+    check_case(ctx, case, 'cli', 1)
